@@ -60,6 +60,9 @@ pub enum Closer {
     /// two tasks call kill() / stop() at the same time: as soon as EITHER call has returned the request holds
     TwoKillers,
     TwoStoppers,
+    /// stop A once its child has been told to stop (and a schedule-chosen number of yields later): the stop
+    /// lands while the child's exit, and A's handling of it, are under way
+    StopAfterChild,
 }
 
 #[derive(Clone, Debug)]
@@ -287,18 +290,21 @@ pub async fn run_scenario(sc: Sc) -> Run {
             ("pg", call, ret, 0, true)
         }));
     }
+    let child_told = Arc::new(std::sync::atomic::AtomicBool::new(false));
+    let child_told2 = child_told.clone();
     let mut child = None;
     if sc.child {
         // C is spawned by a stimulus task so that its start may land anywhere in A's life
         let a = a_ref.clone();
         let log2 = log.clone();
         child = Some(vsched::spawn("childspawn", async move {
-            match Actor::spawn_linked(None, Probe, args("C", Prog::default(), &log2), a.get_cell()).await {
+            match Actor::spawn_linked(Some("C".into()), Probe, args("C", Prog::default(), &log2), a.get_cell()).await {
                 Ok((c, h)) => {
                     let id = c.get_id().to_string();
                     let call = vsched::call_stamp();
                     c.stop(Some("child-done".into()));
                     let ret = vsched::ret_stamp();
+                    child_told2.store(true, std::sync::atomic::Ordering::SeqCst);
                     let _ = h.await;
                     Some((id, call, ret))
                 }
@@ -356,6 +362,18 @@ pub async fn run_scenario(sc: Sc) -> Run {
             }
             Closer::TwoStoppers => {
                 a.stop(Some("first".into()));
+                ("stop", vsched::ret_stamp())
+            }
+            Closer::StopAfterChild => {
+                let mut spins = 0;
+                while !child_told.load(std::sync::atomic::Ordering::SeqCst) && spins < 200 {
+                    vsched::yield_now().await;
+                    spins += 1;
+                }
+                for _ in 0..vsched::choose_free("closer-delay", 5) {
+                    vsched::yield_now().await;
+                }
+                a.stop(Some("after-child".into()));
                 ("stop", vsched::ret_stamp())
             }
             Closer::Drain => {
